@@ -612,6 +612,35 @@ Section Engine.
     fold_left (eval_phase e rs) [1; 2; 3; 4; 5] s.
 End Engine.
 
+(* ---- the pooled transaction object: Close, then WAF.newTransaction on the recycled object ---- *)
+(* Transaction.Close: TransactionVariables.reset() empties every collection (Map.Reset,
+   Single.Reset -> ""); the other fields stay until the object is handed out again *)
+Definition st_close (s : st) : st :=
+  {| s_tx := []; s_rule := []; s_mv := []; s_mvn := []; s_mvs := []; s_hs := [];
+     s_capture := s_capture s; s_interrupted := s_interrupted s; s_matched := s_matched s; s_trace := s_trace s |}.
+(* WAF.newTransaction on an object taken from the pool: matchedRules, interruption, Capture are
+   re-initialised, TX.0 .. TX.10 are Set to "", HIGHEST_SEVERITY is Set to 255 — for EVERY
+   transaction, not only when the variables are first constructed; the ghost trace starts empty *)
+Definition st_new (s : st) : st :=
+  {| s_tx := fold_left (fun m n => tx_set m (itoa n) [[]]) [0;1;2;3;4;5;6;7;8;9;10] (s_tx s);
+     s_rule := s_rule s; s_mv := s_mv s; s_mvn := s_mvn s; s_mvs := s_mvs s; s_hs := str "255";
+     s_capture := false; s_interrupted := None; s_matched := []; s_trace := [] |}.
+
+Section Pool.
+  Variable opid : Type.
+  Variable op_eval : opid -> env -> st -> bytes -> bool * list (N * bytes).
+  (* the state in which the next transaction of the same pooled object starts, after the earlier
+     requests [priors] were processed and closed one after the other *)
+  Fixpoint run_priors (rs : list (rule opid)) (priors : list env) (s : st) : st :=
+    match priors with
+    | [] => s
+    | e :: r => run_priors rs r (st_new (st_close (eval_tx opid op_eval e rs s)))
+    end.
+  Definition eval_nth_tx (rs : list (rule opid)) (priors : list env) (e : env) : st :=
+    eval_tx opid op_eval e rs (run_priors rs priors st_init).
+End Pool.
+Arguments run_priors {opid}. Arguments eval_nth_tx {opid}.
+
 Arguments l_id {opid}. Arguments l_logid {opid}. Arguments l_parent {opid}. Arguments l_op {opid}.
 Arguments l_tfs {opid}. Arguments l_multi {opid}. Arguments l_capture {opid}. Arguments l_haschain {opid}.
 Arguments l_msg {opid}. Arguments l_logdata {opid}. Arguments l_sev {opid}. Arguments l_actions {opid}.
